@@ -28,7 +28,8 @@ CONFIGS_T = CONFIGS_Q + [{"opset": 26}, {"opset": 21, "enable_double_precision":
 def list_jobs(tier):
     reg = corpus.registry_ids(include_f64=False)
     progs = families.ids("A5", tier) + families.ids("A6", tier) + families.ids("A4", tier)[::2] + families.ids("A8", tier)[::5] + families.ids("A7", tier)[::6]
-    progs += families.ids("A1", tier)[::3] + families.ids("A2", tier)[::2]
+    a1 = families.ids("A1", tier)
+    progs += sorted(set(a1[::3] + [i for i in a1 if "/dbl." in i or "/mixdt." in i])) + families.ids("A2", tier)[::2]
     progs += reg[::7] if tier == "quick" else reg[::2]
     cfgs = CONFIGS_Q if tier == "quick" else CONFIGS_T
     jobs = []
